@@ -11,6 +11,9 @@
 
    split = false: backing arrays are nodes with identity (offset, len, cap and
                   the whole array are kept): exact comparison of two outputs.
+                  Slices of capacity 0 own no memory and have no identity: each
+                  occurrence gets a number of its own (two struct fields holding
+                  the same empty slice header are not "sharing" anything).
    split = true : every slice occurrence is unfolded into its own copy of its
                   window [off, off+cap): identity of backing arrays is ignored,
                   as reflect.DeepEqual does and as the copier does by design
@@ -71,6 +74,11 @@ Fixpoint canon (split : bool) (fuel : nat) (h : heap) (c : cn) (v : hv) {struct 
               let k := n_next c in
               p <~ map_st (canon split f h) (cn_fresh c) (window es (s_off s) (s_cap s)) ;;
               Done (cn_emit (fst p) k (OArr (snd p)), HSlice (Some (mk_sref k 0 (s_len s) (s_cap s))))
+            else if s_cap s =? 0 then
+              (* a slice of capacity 0 owns no memory (Go hands out runtime.zerobase or keeps
+                 any pointer): no identity - numbered per occurrence, as the walker does *)
+              let k := n_next c in
+              Done (cn_emit (cn_fresh c) k (OArr []), HSlice (Some (mk_sref k 0 (s_len s) 0)))
             else
               match alookup (n_seen c) (s_arr s) with
               | Some k => Done (c, HSlice (Some (mk_sref k (s_off s) (s_len s) (s_cap s))))
